@@ -34,7 +34,7 @@ def cases(tier):
     return out
 
 
-def compare(obs, add, res):
+def compare(obs, add, res, cli_flags=False):
     lp, ls, la = obs["lint_path"], obs["lint_stdin"], obs["lint_api"]
     res["n"] += 3
     if lp["records"] != ls["records"]:
@@ -42,6 +42,8 @@ def compare(obs, add, res):
     if lp["records"] != la["records"]:
         add("lint_records_path_vs_api", {}, {"path": lp["records"], "api": la["records"]})
     sa = obs.get("lint_simple_api", {})
+    if cli_flags:
+        sa = {}  # the simple API call cannot be given the CLI-only flag; not comparable
     if "records" in sa and sa["records"] != lp["records"]:
         add("lint_records_path_vs_simple_api", {}, {"path": lp["records"], "api": sa["records"]})
     if lp["rc"] != ls["rc"]:
@@ -53,7 +55,7 @@ def compare(obs, add, res):
             add(cmd + "_text_path_vs_stdin", {}, {"path": p["text"][:200], "stdin": s_["text"][:200]})
         if p["rc"] != s_["rc"]:
             add(cmd + "_exit_path_vs_stdin", {}, {"path": p["rc"], "stdin": s_["rc"]})
-    fa = obs.get("fix_simple_api", {})
+    fa = obs.get("fix_simple_api", {}) if not cli_flags else {}
     if "text" in fa and fa["text"] != obs["fix_path"]["text"]:
         add("fix_text_path_vs_simple_api", {}, {"path": obs["fix_path"]["text"][:200], "api": fa["text"][:200]})
     fl = obs.get("fix_lint_paths", {})
@@ -83,7 +85,7 @@ def run_case(case):
     def add(clause, features, detail):
         res["fails"].append({"clause": clause, "features": dict(feats, **features), "detail": detail})
 
-    if compare(obs, add, res):
+    if compare(obs, add, res, cli_flags=bool(case.get('s') and clifam.SUPP[case['s']['supp']][2])):
         res["nontrivial"] = 1
     res["cls"].add(digest((obs["lint_path"]["records"], obs["fix_path"]["text"])))
     clifam.cleanup_case(s)
